@@ -199,3 +199,71 @@ Proof.
   rewrite !mmul_ok by exact H. cbn [bind].
   replace (N.min (ctx * 2) (W - 1)) with (2 * ctx) by lia. reflexivity.
 Qed.
+
+(** * the executable statement on the machine model's output; the input built by the model *)
+Lemma machine_check_run_l p v : wf_C16 v = true -> bytes_of v <= ISIZE_MAX -> v_big (v_nth 1 v) < W ->
+  check_C16 v (run_M16 p v) = true.
+Proof. intros H1 H2 H3. rewrite run_M16_ok by assumption. apply check_run_l. exact H1. Qed.
+
+Lemma input_of_wf kind max ctx g s probes : wf_C16 (input_of kind max ctx g s probes) = true.
+Proof.
+  unfold wf_C16, input_of. cbn [v_nth nth]. rewrite v_clusters_v.
+  rewrite forallb_forall. intros c Hc. pose proof (seg_of_nonempty g s) as H.
+  rewrite Forall_forall in H. specialize (H c Hc). destruct c; [congruence|reflexivity].
+Qed.
+
+Lemma v_big_n_v x : v_big (n_v x) = x.
+Proof. unfold v_big, n_v. apply N2Z.id. Qed.
+
+Lemma machine_run_u_l p kind max ctx g s probes : lenN (utf8s s) <= ISIZE_MAX -> max < W ->
+  run_M16 p (input_of kind max ctx g s probes) = run_C16 (input_of kind max ctx g s probes)
+  /\ machine_agree (input_of kind max ctx g s probes) (run_C16 (input_of kind max ctx g s probes)) = true.
+Proof.
+  intros HB Hm.
+  assert (H2 : bytes_of (input_of kind max ctx g s probes) <= ISIZE_MAX).
+  { unfold bytes_of, input_of. cbn [v_nth nth]. rewrite v_clusters_v.
+    change (lens_of (seg_of g s)) with (lens_g g s). rewrite lens_g_sum. exact HB. }
+  assert (H3 : v_big (v_nth 1 (input_of kind max ctx g s probes)) < W).
+  { unfold input_of. cbn [v_nth nth]. rewrite v_big_n_v. exact Hm. }
+  split; [apply run_M16_ok | apply machine_agree_run_l]; try assumption; apply input_of_wf.
+Qed.
+
+(** * witnesses for the pinned code: "abcdefgh", max 5, context 2^63 *)
+Definition abc8 : list cluster := [[97];[98];[99];[100];[101];[102];[103];[104]].
+Definition two63 : N := 9223372036854775808.
+
+Lemma pinned_no_fault_refuted_l :
+  exists kind max ctx cl,
+    max < W /\ ctx < W /\ sumN (lens_of cl) <= ISIZE_MAX /\ Pos (lens_of cl)
+    /\ is_fault (mwindows Checked false (isb_of cl) kind max ctx (lens_of cl)) = true
+    /\ windows kind max ctx (lens_of cl) = Err 1 [].
+Proof.
+  exists 0, 5, two63, abc8. split; [reflexivity|]. split; [reflexivity|]. split; [vm_compute; discriminate|].
+  split; [repeat constructor|]. split; vm_compute; reflexivity.
+Qed.
+
+Lemma pinned_wrapping_refuted_l :
+  exists kind max ctx cl wins w,
+    max < W /\ ctx < W /\ sumN (lens_of cl) <= ISIZE_MAX /\ Pos (lens_of cl)
+    /\ windows kind max ctx (lens_of cl) = Err 1 []
+    /\ mwindows Wrapping false (isb_of cl) kind max ctx (lens_of cl) = Ok wins /\ In w wins
+    /\ w_ce w < w_we w.
+Proof.
+  exists 0, 5, two63, abc8. eexists. eexists. split; [reflexivity|]. split; [reflexivity|].
+  split; [vm_compute; discriminate|]. split; [repeat constructor|]. split; [vm_compute; reflexivity|].
+  split; [vm_compute; reflexivity|]. split; [left; reflexivity|]. vm_compute. reflexivity.
+Qed.
+
+Lemma pinned_wrapping_bound_refuted_l :
+  exists kind max ctx cl wins w,
+    max < W /\ ctx < W /\ sumN (lens_of cl) <= ISIZE_MAX /\ Pos (lens_of cl)
+    /\ kclass kind = 1
+    /\ windows kind max ctx (lens_of cl) = Err 1 []
+    /\ mwindows Wrapping false (isb_of cl) kind max ctx (lens_of cl) = Ok wins /\ In w wins
+    /\ max < w_bce w - w_bcs w.
+Proof.
+  exists 1, 5, two63, abc8. eexists. eexists. split; [reflexivity|]. split; [reflexivity|].
+  split; [vm_compute; discriminate|]. split; [repeat constructor|]. split; [reflexivity|].
+  split; [vm_compute; reflexivity|].
+  split; [vm_compute; reflexivity|]. split; [left; reflexivity|]. vm_compute. reflexivity.
+Qed.
